@@ -25,6 +25,8 @@ Definition w_lits_plus_matches_gt_blockmax : bytes := [40; 181; 47; 253; 0; 0; 1
 Definition w_rawlit_size_gt_blockmax : bytes := [40; 181; 47; 253; 0; 0; 53; 0; 0; 12; 125; 0; 120; 120; 0].
 (* RLE literals size 2000 > blockSizeMax *)
 Definition w_rlelit_size_gt_blockmax : bytes := [40; 181; 47; 253; 0; 0; 37; 0; 0; 5; 125; 65; 0].
+(* RLE literals size 200000 > 128 KiB in a 128 KiB-window frame (with a capacity between 128 KiB and 331 KiB the split literal buffer would start before dst) *)
+Definition w_rlelit_size_gt_blockmax_128k : bytes := [40; 181; 47; 253; 0; 56; 45; 0; 0; 13; 212; 48; 65; 0].
 (* raw literals size 20 with 2 bytes left in the block: "litSize + lhSize > srcSize" *)
 Definition w_rawlit_size_gt_src : bytes := [40; 181; 47; 253; 0; 0; 29; 0; 0; 160; 120; 120].
 (* compressed literals regenerated size 2000 > blockSizeMax *)
@@ -57,6 +59,8 @@ Definition w_rle_ml_symbol_gt_max : bytes := [40; 181; 47; 253; 0; 0; 93; 0; 0; 
 Definition w_repcode_offset_zero : bytes := [40; 181; 47; 253; 0; 0; 93; 0; 0; 32; 97; 98; 99; 100; 1; 84; 0; 1; 0; 3].
 (* LL table description with accuracy log 10 > LLFSELog 9: "tableLog > maxLog" *)
 Definition w_ncount_log_gt_max : bytes := [40; 181; 47; 253; 0; 0; 101; 0; 0; 32; 97; 98; 99; 100; 1; 148; 5; 0; 2; 0; 4].
+(* complete LL table description (989,1 x35) with accuracy log 10 > LLFSELog 9, initial state 928: without "tableLog > maxLog" the 1024-cell table overruns the 512-cell LLTable inside the DCtx and the frame decodes *)
+Definition w_ncount_log_gt_max_full : bytes := [40; 181; 47; 253; 0; 0; 245; 0; 0; 32; 97; 98; 99; 100; 1; 148; 229; 189; 16; 66; 8; 33; 132; 136; 136; 136; 136; 136; 136; 136; 136; 36; 73; 146; 14; 2; 0; 128; 30].
 (* NCount: probabilities remain after symbol 35 *)
 Definition w_ncount_symbols_exhausted : bytes := [40; 181; 47; 253; 0; 0; 93; 0; 0; 32; 97; 98; 99; 100; 1; 148; 227; 2; 0; 4].
 (* NCount: zero-run repeat flags push the symbol counter past MaxLL: "charnum > maxSV1" *)
@@ -101,6 +105,7 @@ Definition witness_table : list (String.string * bytes * eclass * N) := [
   ("lits_plus_matches_gt_blockmax"%string, w_lits_plus_matches_gt_blockmax, Esafety, 361);
   ("rawlit_size_gt_blockmax"%string, w_rawlit_size_gt_blockmax, Esafety, 302);
   ("rlelit_size_gt_blockmax"%string, w_rlelit_size_gt_blockmax, Esafety, 302);
+  ("rlelit_size_gt_blockmax_128k"%string, w_rlelit_size_gt_blockmax_128k, Esafety, 302);
   ("rawlit_size_gt_src"%string, w_rawlit_size_gt_src, Esafety, 303);
   ("lit_regen_gt_blockmax"%string, w_lit_regen_gt_blockmax, Esafety, 306);
   ("lit_csize_gt_src"%string, w_lit_csize_gt_src, Esafety, 307);
@@ -117,6 +122,7 @@ Definition witness_table : list (String.string * bytes * eclass * N) := [
   ("rle_ml_symbol_gt_max"%string, w_rle_ml_symbol_gt_max, Esafety, 321);
   ("repcode_offset_zero"%string, w_repcode_offset_zero, Esafety, 331);
   ("ncount_log_gt_max"%string, w_ncount_log_gt_max, Eformat, 104);
+  ("ncount_log_gt_max_full"%string, w_ncount_log_gt_max_full, Eformat, 104);
   ("ncount_symbols_exhausted"%string, w_ncount_symbols_exhausted, Eformat, 102);
   ("ncount_zero_run_past_alphabet"%string, w_ncount_zero_run_past_alphabet, Eformat, 101);
   ("ncount_truncated"%string, w_ncount_truncated, Etrunc, 106);
